@@ -634,6 +634,13 @@ func (e *engine) eval() error {
 			for i, baseTerm := range internalPremise.Args {
 				if v, ok := baseTerm.(ast.Variable); ok {
 					if c, ok := fact.Args[i].(ast.Constant); ok {
+						if prev := subst.Get(v); prev != nil && v.Symbol != "_" {
+							if !prev.Equals(c) {
+								// A repeated variable has to match the same constant.
+								return nil
+							}
+							continue
+						}
 						subst = subst.Extend(v, c)
 					}
 				}
